@@ -6,6 +6,8 @@ mod c02;
 mod c03;
 mod c05;
 mod c08;
+mod c12;
+mod c14;
 mod c15;
 mod c16;
 mod cfg;
@@ -62,6 +64,7 @@ fn main() {
             "C03" => c03::replay(&ctx, case),
             "C05" => c05::replay(&ctx, case),
             "C08" => c08::replay(&ctx, case),
+            "C12" => c12::replay(&ctx, case),
             "C15" => c15::replay(&ctx, case),
             "C16" => c16::replay(&ctx, case),
             _ => {
@@ -92,6 +95,8 @@ fn main() {
         "C03" => c03::run(&ctx),
         "C05" => c05::run(&ctx),
         "C08" => c08::run(&ctx),
+        "C12" => c12::run(&ctx),
+        "C14" => c14::run(&ctx),
         "C15" => c15::run(&ctx),
         "C16" => c16::run(&ctx),
         _ => {
